@@ -58,6 +58,20 @@ theorem Items.union_le {a b c : Items} (h1 : a.le c) (h2 : b.le c) : (a.union b)
     fun h => h.elim a5 b5, fun h => h.elim a6 b6, fun h => h.elim a7 b7, fun h => h.elim a8 b8,
     fun h => h.elim a9 b9, fun h => h.elim a10 b10⟩
 
+/-- `g` without the items of `g1` -/
+def Items.diff (a b : Items) : Items :=
+  { packetType := a.packetType && !b.packetType, syncWord := a.syncWord && !b.syncWord,
+    regulator := a.regulator && !b.regulator, tcxo := a.tcxo && !b.tcxo, bufferBase := a.bufferBase && !b.bufferBase,
+    modulation := a.modulation && !b.modulation, packet := a.packet && !b.packet, irq := a.irq && !b.irq,
+    frequency := a.frequency && !b.frequency, pa := a.pa && !b.pa }
+
+theorem Items.le_union_diff (g g1 : Items) : g.le (g1.union (g.diff g1)) := by
+  simp only [Items.le, Items.union, Items.diff]
+  refine ⟨?_, ?_, ?_, ?_, ?_, ?_, ?_, ?_, ?_, ?_⟩ <;> intro h <;> simp [h]
+
+theorem Items.le_of_diff {g sb x : Items} (h1 : sb.le x) (h2 : (g.diff sb).le x) : g.le x :=
+  Items.le_trans (Items.le_union_diff g sb) (Items.union_le h1 h2)
+
 /-- I1 and I3: no command ever reached a chip that may be asleep, nothing was ever started unprogrammed -/
 def Clean (t : ChipTrack) : Prop := t.commandedAsleep = false ∧ t.startedUnprogrammed = false
 
